@@ -95,6 +95,9 @@ void h_prod(void) {
 #endif
   for (unsigned i = 0; i < NRES; ++i) VF_OUT[i] = res[i];
   for (unsigned i = 0; i < XW; ++i) VF_ASSERT(x[i] == VF_X[i], "x operand untouched");
+#ifdef __CPROVER__
+  for (unsigned i = 0; i < YW; ++i) VF_ASSERT((uint64_t)y[i] == VF_Y[i], "y operand untouched");
+#endif
 #ifndef __CPROVER__
   for (unsigned r = 0; r < NRES; ++r) {
     unsigned k = r % 4, blk = r / 4;
